@@ -755,7 +755,7 @@ func main() {
 	}
 	os.MkdirAll(filepath.Join(verifDir, ".work"), 0755)
 	if os.Getenv("GOGC") == "" {
-		debug.SetGCPercent(400) // the interpreter allocates short-lived values at a high rate
+		debug.SetGCPercent(200) // the interpreter allocates short-lived values at a high rate
 	}
 	if pf := os.Getenv("GOSYM_PROF"); pf != "" {
 		f, _ := os.Create(pf)
@@ -763,6 +763,15 @@ func main() {
 		defer pprof.StopCPUProfile()
 		prevExit := exitFn
 		exitFn = func(c int) { pprof.StopCPUProfile(); prevExit(c) }
+	}
+	if mf := os.Getenv("GOSYM_MEMPROF"); mf != "" {
+		prev := exitFn
+		exitFn = func(c int) {
+			f, _ := os.Create(mf)
+			pprof.WriteHeapProfile(f)
+			f.Close()
+			prev(c)
+		}
 	}
 	switch os.Args[1] {
 	case "check":
